@@ -3,4 +3,6 @@ CONSTANTS Fams = {"bin","un","cast","cond","init","arg","ret","assign","test","o
  Seed = 0
  Stride = 1
  D2Stride = 1
+ Base = 1
+ D2Base = 8
 CHECK_DEADLOCK FALSE
